@@ -58,7 +58,7 @@ Definition apply_w (s : mstate) (w : wop) : mstate :=
 Definition writes_of (c : cmd) (s' : mstate) : list wop :=
   match c with
   | CHmset key _ => [WHash key (alook (x0 empty_coll) key (m_hash s'))]
-  | CK (KCset k _) | CK (KCsetex k _ _) =>
+  | CK (KCset k _) | CK (KCsetex k _ _) | CK (KCsetopt k _ _ _ _) =>
       match aget bytes_eqb k (m_kv s') with Some v => [WKput k v] | None => [] end
   | CK (KCdel [k]) => if key_ok k then [WKdel k] else []
   | _ => [WAll s']
@@ -69,13 +69,13 @@ Definition is_fail (r : reply) : bool := match r with RErr | RFault => true | _ 
 (* the four batchable shapes *)
 Definition batch_shape (c : cmd) : bool :=
   match c with
-  | CHmset _ _ | CK (KCset _ _) | CK (KCsetex _ _ _) | CK (KCdel [_]) => true
+  | CHmset _ _ | CK (KCset _ _) | CK (KCsetex _ _ _) | CK (KCsetopt _ _ _ _ _) | CK (KCdel [_]) => true
   | _ => false
   end.
 Definition pk_of (c : cmd) : bytes :=
   match c with
   | CHmset key _ => key
-  | CK (KCset k _) | CK (KCsetex k _ _) | CK (KCdel [k]) => k
+  | CK (KCset k _) | CK (KCsetex k _ _) | CK (KCsetopt k _ _ _ _) | CK (KCdel [k]) => k
   | _ => []
   end.
 
@@ -86,8 +86,19 @@ Definition n_setex : bytes := [115;101;116;101;120].
 Definition n_del : bytes := [100;101;108].
 Definition n_hmset : bytes := [104;109;115;101;116].
 Lemma parse_set key rest :
-  parse_cmd (n_set :: key :: rest) = match rest with [v] => Some (CK (KCset key v)) | _ => None end.
-Proof. destruct rest as [|v [|w r]]; reflexivity. Qed.
+  parse_cmd (n_set :: key :: rest) =
+  match rest with
+  | [] => None
+  | [v] => Some (CK (KCset key v))
+  | v :: opts => match set_opts opts 0%Z false false with
+                 | Some (d, nx, xx) => Some (CK (KCsetopt key v d nx xx))
+                 | None => Some (CK KCinvalid)
+                 end
+  end.
+Proof.
+  destruct rest as [|v [|w r]]; try reflexivity.
+  unfold parse_cmd, n_set. cbn -[set_opts]. destruct (set_opts (w :: r) 0%Z false false) as [[[d nx] xx]|]; reflexivity.
+Qed.
 Lemma parse_setex key rest : parse_cmd (n_setex :: key :: rest) =
   match rest with
   | [d; v] => match parse_int64 d with Some z => Some (CK (KCsetex key z v)) | None => Some (CK KCinvalid) end
@@ -116,7 +127,15 @@ Qed.
 Definition valid_ttl (ts d : Z) : bool := (0 <? d) && (d <? max_u32 - 1 - sec_of ts).
 Definition valid_batchable (name key : bytes) (rest : list bytes) (ts : Z) : bool :=
   key_ok key &&
-  (if bytes_eqb name n_set then match rest with [v] => value_ok v | _ => true end
+  (if bytes_eqb name n_set then
+     match rest with
+     | [] => true
+     | [v] => value_ok v
+     | v :: opts => value_ok v && match set_opts opts 0 false false with
+                                  | Some (d, _, _) => (d =? 0) || valid_ttl ts d
+                                  | None => false
+                                  end
+     end
    else if bytes_eqb name n_setex then
      match rest with
      | [d; v] => value_ok v && match parse_int64 d with Some z => valid_ttl ts z | None => false end
@@ -178,6 +197,15 @@ Section Inst.
       + (* setex *) cbn [MapK.kstep] in EK.
         repeat match type of EK with context [if ?b then _ else _] => destruct b end;
           injection EK as <- <-; try discriminate; rewrite (aget_aput_eq bytes_eqb bytes_eqb_eq); reflexivity.
+      + (* set with options *) cbn [MapK.kstep] in EK.
+        assert (Same : match aget bytes_eqb k (m_kv s) with Some v0 => commit s [WKput k v0] | None => commit s [] end = s).
+        { destruct (aget bytes_eqb k (m_kv s)) as [v0|] eqn:G; unfold commit; cbn [DM.commit_ws fold_left apply_w].
+          - rewrite (aput_same bytes_eqb k v0 (m_kv s) G). destruct s; reflexivity.
+          - reflexivity. }
+        destruct (kget compact ts k (m_kv s));
+        repeat match type of EK with context [if ?b then _ else _] => destruct b end;
+          injection EK as <- <-; try discriminate; try (rewrite (aget_aput_eq bytes_eqb bytes_eqb_eq); reflexivity);
+          (destruct (aget bytes_eqb k (m_kv s)); rewrite Same; destruct s; reflexivity).
   Qed.
 
   Theorem dhandler_ok q c s : cmd_of q = Some c -> is_fail (snd (map_step compact now (ts_of q) c s)) = false ->
@@ -209,7 +237,8 @@ Section Inst.
         destruct (rest_of q); [reflexivity|discriminate]. }
       left. split; reflexivity.
     - rewrite parse_hmset in C. destruct (pairs_of (rest_of q)); [|discriminate]. injection C as <-. left. split; reflexivity.
-    - rewrite parse_set in C. destruct (rest_of q) as [|v [|w r]]; try discriminate. injection C as <-. left. split; reflexivity.
+    - rewrite parse_set in C. destruct (rest_of q) as [|v [|w r]]; try discriminate; [injection C as <-; left; split; reflexivity|].
+      destruct (set_opts (w :: r) 0 false false) as [[[d nx] xx]|]; injection C as <-; [left; split; reflexivity|right; reflexivity].
     - rewrite parse_setex in C. destruct (rest_of q) as [|d [|v [|w r]]]; try discriminate.
       destruct (parse_int64 d); injection C as <-; [left; split; reflexivity|right; reflexivity].
   Qed.
@@ -246,6 +275,11 @@ Section Inst.
       + (* setex *)
         repeat match goal with |- context [if ?b then _ else _] => destruct b end; try reflexivity;
           cbv beta iota zeta; cbn [is_fail writes_of m_kv]; rewrite ?(aget_aput_eq bytes_eqb bytes_eqb_eq); try rewrite V; reflexivity.
+      + (* set with options *)
+        unfold kget. rewrite (klive_get ts k (m_kv s) (m_kv s2) V).
+        destruct (klive compact ts k (m_kv s2)) as [[e0 v0]|];
+        repeat match goal with |- context [if ?b then _ else _] => destruct b end; try reflexivity;
+          cbv beta iota zeta; cbn [is_fail writes_of m_kv]; rewrite ?(aget_aput_eq bytes_eqb bytes_eqb_eq); try rewrite V; reflexivity.
   Qed.
 
   (* the write batch of a batchable shape touches the record of its primary key only *)
@@ -269,6 +303,7 @@ Section Inst.
       + destruct (aget bytes_eqb k (m_kv s')); unfold commit; cbn [DM.commit_ws fold_left]; [apply K; exact NE|reflexivity].
       + destruct ks as [|k [|k2 ks]]; try discriminate B. cbn [pk_of] in NE.
         destruct (key_ok k); unfold commit; cbn [DM.commit_ws fold_left]; [apply D; exact NE|reflexivity].
+      + destruct (aget bytes_eqb k (m_kv s')); unfold commit; cbn [DM.commit_ws fold_left]; [apply K; exact NE|reflexivity].
       + destruct (aget bytes_eqb k (m_kv s')); unfold commit; cbn [DM.commit_ws fold_left]; [apply K; exact NE|reflexivity].
   Qed.
 
@@ -336,8 +371,16 @@ Section Inst.
       destruct (xrenew exists_coll forget_c compact (ts_of q) (Map.hmset compact (ts_of q) (DM.rpk q) fvs)
                        (alook (x0 empty_coll) (DM.rpk q) (m_hash s))) as [x' r']. cbn [snd] in *. rewrite XR, HR. reflexivity.
     - rewrite parse_set in C. replace (bytes_eqb n_set n_set) with true in Val by reflexivity.
-      destruct (rest_of q) as [|v [|w r]]; try discriminate. injection C as <-.
-      cbn [map_step MapK.kstep]. rewrite K, Val. reflexivity.
+      destruct (rest_of q) as [|v [|w r]]; try discriminate.
+      + injection C as <-. cbn [map_step MapK.kstep]. rewrite K, Val. reflexivity.
+      + apply andb_true_iff in Val. destruct Val as [VO TT].
+        destruct (set_opts (w :: r) 0 false false) as [[[d nx] xx]|]; [|discriminate]. injection C as <-.
+        cbn [map_step]. destruct (MapK.kstep compact (ts_of q) (KCsetopt (DM.rpk q) v d nx xx) (m_kv s)) as [m' r'] eqn:EK. cbn [snd].
+        cbn [MapK.kstep] in EK. rewrite K, VO in EK. cbn [negb] in EK.
+        assert (OV : 0 <? d = true -> when_overflows (sec_of (ts_of q) + d) = false /\ (int64_max <? sec_of (ts_of q) + d) = false).
+        { intros P. unfold valid_ttl, when_overflows, int64_max, max_u32 in *. lia. }
+        destruct (0 <? d) eqn:PD; [destruct (OV eq_refl) as [O1 O2]; rewrite O1, O2 in EK|];
+          destruct (kget compact (ts_of q) (DM.rpk q) (m_kv s)); destruct nx, xx, compact; injection EK as <- <-; reflexivity.
     - rewrite parse_setex in C.
       replace (bytes_eqb n_setex n_set) with false in Val by reflexivity.
       replace (bytes_eqb n_setex n_setex) with true in Val by reflexivity.
